@@ -141,6 +141,10 @@ pub struct FileSpec {
     /// mtime given to the source file (seconds since the epoch)
     pub mtime: u32,
     pub verify: Option<u32>,
+    /// pass an explicit mode as a raw integer (`.mode(0o100644)`) instead of through the
+    /// FileMode constructors: 1 = i32, 2 = u16
+    #[serde(default)]
+    pub mode_as_int: u8,
 }
 
 impl FileSpec {
@@ -352,11 +356,13 @@ pub fn stage_file(
     fh.set_modified(std::time::UNIX_EPOCH + std::time::Duration::from_secs(f.mtime as u64))?;
     drop(fh);
     let mut o = rpm::FileOptions::new(f.dest());
-    match f.mode {
-        ModeSpec::Inherit(_) => {}
-        ModeSpec::Regular(p) => o = o.mode(rpm::FileMode::regular(p)),
-        ModeSpec::Dir(p) => o = o.mode(rpm::FileMode::dir(p)),
-        ModeSpec::Symlink(p) => o = o.mode(rpm::FileMode::symbolic_link(p)),
+    match (f.mode.clone(), f.mode_as_int) {
+        (ModeSpec::Inherit(_), _) => {}
+        (_, 1) => o = o.mode(f.expected_mode() as i32),
+        (_, 2) => o = o.mode(f.expected_mode()),
+        (ModeSpec::Regular(p), _) => o = o.mode(rpm::FileMode::regular(p)),
+        (ModeSpec::Dir(p), _) => o = o.mode(rpm::FileMode::dir(p)),
+        (ModeSpec::Symlink(p), _) => o = o.mode(rpm::FileMode::symbolic_link(p)),
     }
     if let Some(u) = &f.user {
         o = o.user(u.clone());
@@ -682,6 +688,7 @@ pub fn file_any(size: BoxedStrategy<u32>, kinds: bool) -> BoxedStrategy<FileSpec
                 symlink: None,
                 mtime,
                 verify,
+                mode_as_int: (perm % 3) as u8,
             };
             if kinds && k == 8 {
                 f.mode = ModeSpec::Dir(perm);
